@@ -315,7 +315,7 @@ func (l *irLoader) loadCommentRule(resultProto goRule, rule *ir.Rule, src string
 	resultBase := resultProto
 	resultBase.line = line
 	result := goCommentRule{
-		base:          resultProto,
+		base:          resultBase,
 		pat:           pat,
 		captureGroups: regexpHasCaptureGroups(src),
 	}
